@@ -4,6 +4,6 @@ set -e
 id=$1
 d=/tmp/wt/seed-$id
 git -C /repo worktree add --detach $d HEAD >/dev/null 2>&1
-cp -a /repo/target $d/target
+cp -a ${SEED_TARGET_SRC:-/tmp/wt/verify/target} $d/target
 mkdir -p /tmp/seedout/$id
 echo $d
